@@ -31,11 +31,31 @@ type gGrant struct {
 	hasOpenID bool
 }
 
+type gDevice struct {
+	client  string
+	name    string
+	decided bool
+	scopes  []string
+	gr      *gGrant
+}
+
+type gPar struct {
+	client string
+	name   string
+	used   bool
+	gs     []string
+	pkce   string
+	method string
+	redir  string
+}
+
 type gen struct {
 	r       *Rand
 	e       *Emitter
 	clients []*gClient
 	grants  []*gGrant
+	devices []*gDevice
+	pars    []*gPar
 	tokens  []string // every token/code name ever seen
 	steps   int
 	bias    string
@@ -45,6 +65,8 @@ type gen struct {
 var (
 	reAuthz  = regexp.MustCompile(`^authz code=(\S+) at=(\S+) id=`)
 	reTokens = regexp.MustCompile(`^tokens at=(\S+) rt=(\S+) id=`)
+	reDevice = regexp.MustCompile(`^device dc=(\S+) uc=(\S+) exp=`)
+	rePar    = regexp.MustCompile(`^par uri=(\S+) exp=`)
 )
 
 const (
@@ -83,8 +105,11 @@ func (g *gen) setup() {
 	rtLife := []int64{30 * 24 * 3600 * sec, 120 * sec, -1}[r.Intn(3)]
 	pk := r.Intn(4)
 	g.cfg = map[string]string{"pkce": b01(pk == 1), "pkcePublic": b01(pk == 2), "plain": b01(r.Intn(3) == 0)}
-	g.op(fmt.Sprintf("cfg\trefreshScopes=%s\tscope=%s\taud=%s\tcodeLife=%d\tatLife=%d\trtLife=%d\tpkce=%s\tpkcePublic=%s\tplain=%s\tnoRtIntrospect=%s",
-		encListS(refreshScopes), scopeStrat, audStrat, codeLife, atLife, rtLife, g.cfg["pkce"], g.cfg["pkcePublic"], g.cfg["plain"], b01(r.Intn(5) == 0)))
+	deviceLife := []int64{600 * sec, 90 * sec}[r.Intn(2)]
+	parLife := []int64{300 * sec, 45 * sec}[r.Intn(2)]
+	g.op(fmt.Sprintf("cfg\trefreshScopes=%s\tscope=%s\taud=%s\tcodeLife=%d\tatLife=%d\trtLife=%d\tpkce=%s\tpkcePublic=%s\tplain=%s\tnoRtIntrospect=%s\tdeviceLife=%d\tparLife=%d\tenforcePAR=%s\tdevMark=%s",
+		encListS(refreshScopes), scopeStrat, audStrat, codeLife, atLife, rtLife, g.cfg["pkce"], g.cfg["pkcePublic"], g.cfg["plain"], b01(r.Intn(5) == 0),
+		deviceLife, parLife, b01(r.Intn(12) == 0), b01(r.Intn(2) == 0)))
 	allScopes := []string{"offline", "openid", "a", "b.c", "rt", "offline_access"}
 	if scopeStrat == "wildcard" {
 		allScopes = append(allScopes, "b.*")
@@ -99,6 +124,15 @@ func (g *gen) setup() {
 		}
 		if r.Intn(10) < 6 {
 			c.grants = append(c.grants, "implicit")
+		}
+		if r.Intn(10) < 5 {
+			c.grants = append(c.grants, "client_credentials")
+		}
+		if r.Intn(10) < 5 {
+			c.grants = append(c.grants, "password")
+		}
+		if r.Intn(10) < 6 {
+			c.grants = append(c.grants, "urn:ietf:params:oauth:grant-type:device_code")
 		}
 		c.scopes = pickN(r, allScopes, 85)
 		if len(c.scopes) == 0 {
@@ -415,6 +449,145 @@ func (g *gen) mutateClient() {
 	g.emitClient(c)
 }
 
+func (g *gen) reqScopes(c *gClient) []string {
+	var scopes []string
+	for _, s := range pickN(g.r, c.scopes, 70) {
+		scopes = append(scopes, concreteScope(s))
+	}
+	if g.r.Intn(12) == 0 {
+		scopes = append(scopes, "not-allowed")
+	}
+	return scopes
+}
+
+// direct grants at the token endpoint
+func (g *gen) direct() {
+	r := g.r
+	c := g.clients[r.Intn(len(g.clients))]
+	scopes := g.reqScopes(c)
+	aud := pickN(r, c.aud, 50)
+	cred := b01(r.Intn(8) != 0)
+	var obs string
+	if r.Bool() {
+		obs = g.op(fmt.Sprintf("cc\t%s\t%s\t%s\t%s", c.id, cred, encListS(scopes), encListS(aud)))
+	} else {
+		user := []string{"peter", "peter", "peter", "nobody", ""}[r.Intn(5)]
+		pwgiven := b01(r.Intn(10) != 0)
+		userok := b01(user == "peter" && r.Intn(4) != 0)
+		obs = g.op(fmt.Sprintf("password\t%s\t%s\t%s\t%s\t%s\t%s\t%s", c.id, cred, user, pwgiven, userok, encListS(scopes), encListS(aud)))
+	}
+	gr := &gGrant{client: c.id, scopes: scopes, redeemed: true}
+	if g.noteTokens(gr, obs) {
+		g.grants = append(g.grants, gr)
+	}
+}
+
+func (g *gen) deviceStart() {
+	r := g.r
+	c := g.clients[r.Intn(len(g.clients))]
+	scopes := g.reqScopes(c)
+	aud := pickN(r, c.aud, 50)
+	formClient := c.id
+	if !c.public && r.Intn(10) == 0 {
+		formClient = g.otherClient(c.id).id
+	}
+	obs := g.op(fmt.Sprintf("deviceAuthorize\t%s\t%s\t%s\t%s\t%s", c.id, b01(r.Intn(8) != 0), formClient, encListS(scopes), encListS(aud)))
+	if m := reDevice.FindStringSubmatch(obs); m != nil {
+		g.devices = append(g.devices, &gDevice{client: c.id, name: m[1], scopes: scopes})
+		g.tokens = append(g.tokens, m[1])
+	}
+}
+
+func (g *gen) deviceStep() {
+	r := g.r
+	if len(g.devices) == 0 {
+		g.deviceStart()
+		return
+	}
+	d := g.devices[r.Intn(len(g.devices))]
+	switch x := r.Intn(10); {
+	case x < 3 && !d.decided:
+		verdict := []string{"accept", "accept", "accept", "reject"}[r.Intn(4)]
+		gs := pickN(r, d.scopes, 90)
+		g.op(fmt.Sprintf("deviceDecide\t%s\t%s\t%s\t%s\t%s", d.name, verdict, encListS(gs), "", []string{"alice", "bob"}[r.Intn(2)]))
+		d.decided = true
+	default:
+		client, cred, code := d.client, "1", d.name
+		switch r.Intn(10) {
+		case 0:
+			client = g.otherClient(d.client).id
+		case 1:
+			cred = "0"
+		case 2:
+			code = d.name + []string{"~r", "~s"}[r.Intn(2)]
+		}
+		obs := g.op(fmt.Sprintf("devicePoll\t%s\t%s\t%s", client, cred, code))
+		if d.gr == nil {
+			d.gr = &gGrant{client: d.client, redeemed: true}
+		}
+		if g.noteTokens(d.gr, obs) && len(d.gr.ats) == 1 {
+			g.grants = append(g.grants, d.gr)
+		}
+	}
+}
+
+func (g *gen) parStep() {
+	r := g.r
+	var open []*gPar
+	for _, p := range g.pars {
+		if !p.used {
+			open = append(open, p)
+		}
+	}
+	if len(open) == 0 || r.Intn(3) == 0 {
+		c := g.clients[r.Intn(len(g.clients))]
+		rts := [][]string{{"code"}, {"code"}, {"code", "token"}, {"code", "id_token", "token"}}[r.Intn(4)]
+		scopes := g.reqScopes(c)
+		aud := pickN(r, c.aud, 50)
+		redirect := c.redirects[r.Intn(len(c.redirects))]
+		verifier, challenge, method := "", "", ""
+		if r.Intn(3) == 0 {
+			verifier = verifiers[r.Intn(len(verifiers))]
+			challenge, method = "H("+verifier+")", "S256"
+		}
+		nonce := "nonce-nonce-nonce"
+		obs := g.op(fmt.Sprintf("parPush\t%s\t%s\t%s\t%s\t%s\t%s\t1\t%s\t%s\t%s\t%s\t%s\t%s", c.id, b01(r.Intn(8) != 0), b01(r.Intn(12) == 0),
+			b01(!c.public && r.Intn(3) == 0), encListS(rts), redirect, "pushed-state-state", nonce, encListS(scopes), encListS(aud), challenge, method))
+		if m := rePar.FindStringSubmatch(obs); m != nil {
+			g.pars = append(g.pars, &gPar{client: c.id, name: m[1], gs: scopes, pkce: verifier, method: method, redir: redirect})
+		}
+		return
+	}
+	p := open[r.Intn(len(open))]
+	client, uri := p.client, p.name
+	var extra []string
+	switch r.Intn(10) {
+	case 0:
+		client = g.otherClient(p.client).id
+	case 1:
+		uri = "P999"
+	case 2, 3:
+		extra = []string{"redirect_uri", "scope", "state", "response_type", "audience"}[:1+r.Intn(5)]
+	}
+	gs := pickN(r, p.gs, 90)
+	obs := g.op(fmt.Sprintf("authorizePar\t%s\t%s\t%s\t%s\t%s\t%s", client, uri, encListS(extra), encListS(gs), "", []string{"alice", "bob", ""}[r.Intn(3)]))
+	if uri == p.name {
+		p.used = true
+	}
+	if m := reAuthz.FindStringSubmatch(obs); m != nil {
+		gr := &gGrant{client: p.client, redirect: p.redir, verifier: p.pkce, method: p.method, scopes: gs}
+		if m[1] != "?" {
+			gr.code = m[1]
+			g.tokens = append(g.tokens, m[1])
+		}
+		if m[2] != "?" {
+			gr.hybridAT = m[2]
+			g.tokens = append(g.tokens, m[2])
+		}
+		g.grants = append(g.grants, gr)
+	}
+}
+
 // History generates one history of about n operations.
 func (g *gen) History(n int) {
 	g.setup()
@@ -429,8 +602,14 @@ func (g *gen) History(n int) {
 				live = append(live, gr)
 			}
 		}
-		x := r.Intn(100)
+		x := r.Intn(118)
 		switch {
+		case x >= 100 && x < 106:
+			g.direct()
+		case x >= 106 && x < 112:
+			g.deviceStep()
+		case x >= 112:
+			g.parStep()
 		case x < 14 || len(g.grants) == 0:
 			g.authorize()
 		case x < 30 && len(pending) > 0:
